@@ -691,18 +691,32 @@ class BaseNodeVisitor(ast.NodeVisitor):
             error["context"] = context
 
         if lineno is not None and self._changes_for_fixer is not None:
-            if self.add_ignores:
+            if self.add_ignores and obey_ignore:
                 this_line = lines[lineno - 1]
                 indentation = analysis_lib.get_indentation(this_line)
                 if error_code is not None:
                     ignore = f"{ignore_comment}[{error_code.name}]"
                 else:
                     ignore = ignore_comment
-                replacement = Replacement(
-                    [lineno],
-                    ["{}{}\n".format(" " * indentation, ignore), this_line],
-                    str(e),
-                )
+                prev_line = lines[lineno - 2] if lineno >= 2 else ""
+                if not this_line.rstrip().endswith("\\") and (
+                    prev_line.strip().startswith(ignore_comment)
+                    or prev_line.rstrip().endswith("\\")
+                    or indentation == 0
+                    and all(line.startswith("#") for line in lines[: lineno - 1])
+                ):
+                    # A comment line above this line would separate another ignore
+                    # comment from it, split a backslash continuation, or become a
+                    # file-level ignore: use a trailing comment instead.
+                    replacement = Replacement(
+                        [lineno], [f"{this_line.rstrip()}  {ignore}\n"], str(e)
+                    )
+                else:
+                    replacement = Replacement(
+                        [lineno],
+                        ["{}{}\n".format(" " * indentation, ignore), this_line],
+                        str(e),
+                    )
             else:
                 if replacement is not None:
                     replacement.error_str = str(e)
